@@ -532,6 +532,20 @@ theorem C12_disassemble_tokens (is : List Instr) (hwf : ∀ i ∈ is, i.wf) :
 theorem C12_names_roundtrip (op : UInt8) (name : Text) (h : dictGet op intToOpcodeC = some name) :
     compileToken name = .ok [op] := nameOk_spec op name h
 
+/-- **C12.compile_disassemble_text** — the same at the level of the text: `compile(disassemble(s)) = s`, through
+joining the tokens with single spaces and `str.split()` (no printed token is empty or contains white space).
+Still modelled, not proved, in the string layer: Python's `str.upper()`/`int()`/`unhexlify` as rendered in
+`Model/ScriptTools.lean` (ASCII), tied to the code by correspondence. -/
+theorem C12_compile_disassemble_text (is : List Instr) (hwf : ∀ i ∈ is, i.wf) :
+    compile (disassemble (assemble is)) = .ok (assemble is) := by
+  unfold compile disassemble
+  rw [splitWs_joinSpace]
+  · exact C12_compile_disassemble is hwf
+  · intro t ht
+    rw [C12_disassemble_tokens is hwf] at ht
+    obtain ⟨i, _, rfl⟩ := List.mem_map.mp ht
+    cases i <;> (unfold Instr.token; exact dfod_nospace _ _)
+
 -- non-vacuity: P2PKH-like script with the aliases, a 1-byte small integer, an empty push and a 76-byte push
 #guard (compileTokens (opcodeList' (assemble [.plain 0x76, .plain 0xa9, .push (List.replicate 20 0xab), .plain 0x88,
     .plain 0xb1, .plain 0xb2, .push [5], .push [], .push [0x81], .push (List.replicate 76 1), .plain 0xff])))
